@@ -213,4 +213,22 @@ META['C17'] = {
   'level_text': 'Proved for every reachable contract (missed <= total collateral <= host value) and all parameters: PayWithContract keeps the total, charges the renter exactly RenterCost, risks exactly RiskedCollateral, never raises the missed host value, leaves total collateral alone, and with a computable cost never panics: it refuses exactly when funds or collateral do not suffice; each revision constructor\'s result, once signed, passes every numeric consensus revision rule (validate_revision reduces to the signature check under the current keys); over every history of revision requests value is conserved and the revision number cannot wrap before 2^64 requests; NewContract passes the contract rules and ContractCost funds contract + tax + fee exactly; RenewContract / RefreshPartial / RefreshFull split the old value exactly into final outputs and rollover, never roll over more than the new contract costs, pass every numeric renewal rule, and RenewalCost / RefreshCost never underflow and satisfy renter + host + rollover = new contract + tax + fee; taxAdjustedPayout inverts the v1 tax equation for every target. Tied to rhp/v4 by recomputing every constructor call of generated sequences and to consensus by end-to-end chains.',
 }
 
+META['C19'] = {
+  'generated_obligations': lambda root: 31,
+  'rule': ('(a) every rhp/v4 RPC object (45, generated list): for the 30 with crisp protocol limits the object at exactly the limits, one below, half, one above and far above (MaxSectorBatchSize = 262144 roots, MaxAccountBatchSize = 1000 entries, proof lengths), otherwise random objects, is written with WriteRequest/WriteResponse and read from a stream that continues with garbage through a byte-counting reader: '
+           'within the limits it must fit the receiver\'s limit, be accepted and re-encode identically; in every case the receiver consumes at most its limit and never panics; '
+           'the extracted model recomputes, from the regenerated shapes, the exact size of the maximal object and the receiver\'s verdict on each stream (ReadRequest = decode of the first maxLen bytes; ReadResponse = flag byte + error | object within error maxLen + maxLen); '
+           'error responses with descriptions of 0..1014 bytes are read through every response type and must come back as that error; '
+           '(b) RHP2 transport over an in-memory pipe: handshake, 1-4 responses of boundary sizes (0, 15/16/17, 4095/4096, 5008/5024, 70000), read as objects or as raw streaming responses with VerifyTag; in half of the sessions one bit of the host\'s byte stream after the handshake is flipped: every message delivered must be one that was sent, in order, and the flip must be detected; '
+           '(c) RHP3 transport (handshake, multiplexed stream, request id + request, several responses), same tamper rule; (d) gateway: handshake over loopback TCP with equal / different genesis / equal unique ID, an RPC with up to 500 headers, and the declared maximal sizes of the gateway RPC objects against max*Len'),
+  'trusted_base': [KERNEL, EXTRACT, HARNESS, TRANSLATOR,
+                   'coq/Gen/Limits.v is written on every run by the harness from the implementation\'s own maxLen() methods and constants (verif hook rhp/v4/verif_hooks.go)',
+                   'the table rpc_limits in Codec/Framing.v (which protocol limit bounds which collection; transcribed from rhp/v4/validation.go and rhp.go) and its mirror in harness/c19.go',
+                   'ChaCha20-Poly1305, X25519, the mux package and net.Conn are exercised, not modelled'],
+  'assumptions': ['objects without a crisp protocol limit (contract formation / renewal / refresh messages carrying transaction sets, host settings, the free-sectors proof) have no size obligation; they are round-tripped with random values only',
+                  'transports (RHP2 AEAD framing, RHP3 streams, gateway handshake) are decided by the Go-side oracle under single-bit tampering; no Coq model of the ciphers',
+                  'an RPCError whose description exceeds ERRDESC bytes is outside the statement (none of the implementation\'s own errors comes close)'],
+  'level_text': 'Proved for the generic codec: an encoding under per-collection limits is at most maxsize bytes; a receiver reading through a limit of maxLen bytes decodes every message that fits to the same object whatever follows it, never sees more than maxLen bytes and its result is independent of anything beyond them; a response (flag byte + error | object) that fits is delivered as exactly what was sent, in particular an error as that error. Re-checked by the kernel on every run against shapes regenerated from rhp/v4/encoding.go and the implementation\'s own maxLen() values: for each of the 30 RPC objects with crisp protocol limits the maximal size under those limits is within its receiver\'s limit, and every error with a description of up to 1014 bytes fits every response limit. The implementation is tied by recomputing exact maximal sizes and per-stream verdicts. Partial: transports are oracle-only.',
+}
+
 NOT_YET = {}
